@@ -5,7 +5,7 @@ import sys, os, re, shutil, glob
 pid, k = sys.argv[1], sys.argv[2]
 # optional: argv[3] = round prefix (e.g. "mut2"), seeds of round 2 are numbered k+2
 rnd = sys.argv[3] if len(sys.argv) > 3 else "mut"
-kk = int(k) + (2 if rnd in ("mut2", "mut3") else 0)
+kk = int(k) + (2 if rnd in ("mut2", "mut3", "mut4") else 0)
 src = f"/tmp/{rnd}-{pid}/MUTATION/{k}"; dst = f"/tmp/seed-in/{pid}-{kk}"
 shutil.rmtree(dst, ignore_errors=True); os.makedirs(dst + "/demo")
 shutil.copy(src + "/patch.diff", dst); shutil.copy(src + "/README.md", dst)
